@@ -693,7 +693,12 @@ def callBody : Nat → Option ExecBlock → List (SVal ν) → Option (SVal ν) 
         let nm ← idName p.1.lit
         declare nm p.2 true
       -- the protected part of the body
-      catchR (runBlockHoisted n body) fun r =>
+      -- 结束循环 / 继续循环 outside any loop of this body is an exception of this body
+      catchR (catchR (runBlockHoisted n body) fun r =>
+          match r with
+          | .brk => sfail (.raise (.exc "收到「结束」中断信号"))
+          | .cont => sfail (.raise (.exc "收到「继续」中断信号"))
+          | r => sfail r) fun r =>
         match r with
         | .ok v => pure v
         | .ret v => pure v
@@ -716,6 +721,9 @@ def callBody : Nat → Option ExecBlock → List (SVal ν) → Option (SVal ν) 
                   match hr with
                   | .ok _ => pure SVal.null
                   | .ret v => pure v
+                  -- a loop signal raised by the handler block is an exception of this body too
+                  | .brk => sfail (.raise (.exc "收到「结束」中断信号"))
+                  | .cont => sfail (.raise (.exc "收到「继续」中断信号"))
                   | r => sfail r
                 pure (some hv)
               else pure none) (sfail (.raise ex)) catches
